@@ -117,6 +117,19 @@ Theorem C06_src_backward_pass : forall cfg w ds l cl, isolated_ok w = true ->
   WFin w -> all_dated w (src_sst (ds, l, cl)).
 Proof. exact src_bwd_all_dated. Qed.
 
+(* ---- calc's helpers from the source text (gen/SrcPass.v; Sched/SrcCalcEquiv.v): the pre-checks are the model's
+   [isolated_ok] / [no_future_ends], __prepare_tasks turns the user's values ([raw_dyn]) into the model's initial state ---- *)
+From PJ Require Import Sched.SrcCalcEquiv.
+
+Theorem C06_src_prepare_tasks : forall w, src_prepare_tasks w (map raw_dyn w) = Ok (map init_dyn w, tt).
+Proof. exact src_prepare_tasks_eq. Qed.
+
+Theorem C06_src_prepare_tasks_backward : forall w, src_prepare_tasks_bwd w (map raw_dyn w) = Ok (map init_dyn w, tt).
+Proof. exact src_prepare_tasks_bwd_eq. Qed.
+
+Theorem C06_src_prepare_init_state : forall w, src_prepare_tasks w (map raw_dyn w) = Ok (dy (init_state w), tt).
+Proof. exact src_prepare_init_state. Qed.
+
 Print Assumptions C06_dates_forward.
 Print Assumptions C06_dates_backward.
 Print Assumptions C06_forward_reaches_all.
@@ -130,3 +143,6 @@ Print Assumptions C06_backward_passes_oracle.
 Print Assumptions C06_example.
 Print Assumptions C06_src_forward_pass.
 Print Assumptions C06_src_backward_pass.
+Print Assumptions C06_src_prepare_tasks.
+Print Assumptions C06_src_prepare_tasks_backward.
+Print Assumptions C06_src_prepare_init_state.
